@@ -125,6 +125,13 @@ CLAIMED["C17"] = dict(
     note="Trusted: TLC, TLA+ Drbg/HMAC/SHA256/AES/SM3/SM4 (CAVP / FIPS / GB-T pinned), replayer/recorder plumbing. GM/T 0105 differences are taken from the package documentation; level-1 intervals (2^20, 60/600 s) are not run; which of two applicable errors is returned is not compared.",
     technique="TLA+ executable specification + TLC history exploration + two-way trace conformance")
 
+CLAIMED["C16"] = dict(
+    category="model_checking",
+    text="TLC checks a Dolev-Yao style symbolic model of SignedData / EnvelopedData / EncryptedData / SignedAndEnvelopedData (Pkcs7Sym: Build, Finish, TamperField over 21 named fields, TamperByte, Parse, Verify with/without trust store, Open, OpenPsk, OpenVerify; invariants VerifyIffIntact, OnlyRecipientsOpen, NonRecipientErr, PskRoundTrip) and a TLV-level BER/DER model (P7Ber: IsDer, ToDer, BerIdempotentOnDer) over contents 0..1000 bytes x digest/signature pairs (SM2-SM3, RSA and ECDSA with SHA-1/256/384/512) x all 12 content ciphers x 1-3 signers/recipients x pkcs7 and cfca APIs; one case per check transition is replayed through pkcs7 and cfca in two builds and every altered message is judged by the relation of the property computed from the library's own parsed views (content, authenticated attributes, signature value, signer key / certificate).",
+    design_ref="DESIGN.md section 4, C16",
+    note="Symbolic: signatures and encryption are ideal terms; the key pool is 4 SM2, 2 RSA-2048, 1 ECDSA P-256 keys and an SM2 root; alterations are single-byte; CBC/ECB envelopes are malleable, so for altered envelopes only 'an outside key never yields content' and 'GCM yields the content or an error' are demanded; DER is meant at TLV level.",
+    technique="TLA+ symbolic (Dolev-Yao) model checked by TLC + spec-to-code replay with a relational oracle over the library's parsed views")
+
 NOT_BUILT = "not built yet (in progress; see DESIGN.md section 9 build order)"
 NA = {}
 
